@@ -30,6 +30,15 @@ def has_transform(spec):
     return any(n.get("tr") for _, _, n in S.node_ids(spec))
 
 
+def PARTNER_HISTS(args):
+    from .c05 import menu_from_args
+
+    menu = menu_from_args(args["menu"])
+    ev = menu["events"]
+    # (the last one has a bool category / the other extreme values of the menu)
+    return [[], [ev[0]], [ev[-2], ev[len(ev) // 2]], [e for e in ev if e[0].get("c") is True][:1] or [ev[-1]]]
+
+
 def check_member(spec, h, evs, partners, args, via_file):
     """All C04 obligations for one live aggregator h whose reference multiset is evs."""
     import histogrammar as hg
@@ -94,6 +103,14 @@ def check_member(spec, h, evs, partners, args, via_file):
         trials.append(("(r+g)+=m vs (h+g)+=m", lambda g=g: (merged_into(r + g), merged_into(h + g))))
         trials.append(("(g+r)+=m vs (g+h)+=m", lambda g=g: (merged_into(g + r), merged_into(g + h))))
     trials.append(("r.copy()+=m vs h.copy()+=m", lambda: (merged_into(r.copy()), merged_into(h.copy()))))
+
+    def merged(x, y):
+        x += y
+        return x
+
+    # the reload as the right operand of an in-place merge into a live partial (what fillsparksql does)
+    for gi, ph in enumerate(PARTNER_HISTS(args)):
+        trials.append(("g+=r vs g+=h", lambda ph=ph: (merged(core.mk(spec, ph), r), merged(core.mk(spec, ph), h))))
     trials.append(("h.toImmutable() vs r", lambda: (h.toImmutable(), r)))
     trials.append(("r.toImmutable() vs r", lambda: (r.toImmutable(), r)))
     trials.append(("fromJsonString(h.toJsonString()) vs r", lambda: (hg.Factory.fromJsonString(h.toJsonString()), r)))
@@ -267,6 +284,8 @@ def check_rounding_state(spec, value):
 
 def make_menu(spec, tier):
     recs = A.records(spec, "mid", cap=6 if tier == "quick" else 8)
+    if "c" in S.fields(spec) and not any(r.get("c") is True for r in recs):
+        recs = recs + [dict(recs[0], c=True)]  # a bool category (serialised under its name)
     events = [(r, 1.0) for r in recs] + [(recs[0], 0.5)]
     kinds = ["fill", "add", "copy"]
     menu = {"events": events, "factors": [0.5, 0], "kinds": kinds}
